@@ -34,20 +34,16 @@ func (ci *CollInfo) components() []comp {
 	return nil
 }
 
-func (x *Exec) pairSort(a, b string) string {
+func (x *Exec) pairSort(a, b string) string { return x.c.pairSort(a, b) }
+
+func (c *Ctx) pairSort(a, b string) string {
 	name := "Pair_" + sortMangle(a) + "_" + sortMangle(b)
-	x.c.P.declare(name, fmt.Sprintf("(declare-datatypes ((%s 0)) (((mk_%s (k1_%s %s) (k2_%s %s)))))", name, name, name, a, name, b))
+	c.P.declare(name, fmt.Sprintf("(declare-datatypes ((%s 0)) (((mk_%s (k1_%s %s) (k2_%s %s)))))", name, name, name, a, name, b))
 	return name
 }
 
-// keySort: sort of a collections key type (Pair keys become a datatype).
-func (x *Exec) keySort(T types.Type) string {
-	if n, ok := T.(*types.Named); ok && n.Origin() != nil && namedPath(n.Origin()) == "cosmossdk.io/collections.Pair" {
-		ta := n.TypeArgs()
-		return x.pairSort(x.keySort(ta.At(0)), x.keySort(ta.At(1)))
-	}
-	return x.c.sortOf(T)
-}
+// keySort: sort of a collections key type (Pair keys are a datatype; see Ctx.sortOf).
+func (x *Exec) keySort(T types.Type) string { return x.c.sortOf(T) }
 
 func (x *Exec) collInfo(tg *Tag) *CollInfo {
 	key := tg.Module + "." + tg.Field
@@ -129,6 +125,7 @@ func (x *Exec) stGet(s *State, name, sort string) string {
 }
 
 func (x *Exec) stSet(s *State, name, sort, term string) {
+	s.ver++
 	x.stSorts[name] = sort
 	if x.con != nil && x.con.Opts["guard"] != "" && x.disc == nil {
 		g, ok := s.ghost["guard"]
@@ -144,6 +141,7 @@ func (x *Exec) stSet(s *State, name, sort, term string) {
 }
 
 func (x *Exec) stHavoc(s *State, name string) {
+	s.ver++
 	sort, ok := x.stSorts[name]
 	if !ok {
 		return
